@@ -6,7 +6,15 @@
 open Model
 open Conv
 
-let scenarios : (string * op0 list) list = [
+(* the scenarios of OwnersScenarios.v run through run_events, those of
+   OwnersRevertScenarios.v (SnapshotPrevious, SnapshotRevert, OpenCollection) through
+   xrun_events of the extended system (OwnersRevert.v) *)
+type oplist = Old of op0 list | Ext of xop list
+
+let events_of = function Old ops -> run_events ops | Ext ops -> xrun_events ops
+let nfiles_of = function Old ops -> run_nfiles ops | Ext ops -> xrun_nfiles ops
+
+let scenarios : (string * oplist) list = List.map (fun (n, l) -> (n, Old l)) [
   "append_rounds_snapshots", sc_append_rounds_snapshots;
   "heap_iter_snapshot_closed_first", sc_heap_iter_snapshot_closed_first;
   "force_compaction_child", sc_force_compaction_child;
@@ -20,6 +28,11 @@ let scenarios : (string * op0 list) list = [
   "drop_only_child_new_file", sc_drop_only_child_new_file;
   "iterator_error_return", sc_iterator_error_return;
   "close_collection_before_handles", sc_close_collection_before_handles;
+] @ List.map (fun (n, l) -> (n, Ext l)) [
+  "revert_previous_held", sc_revert_previous_held;
+  "revert_child_previous_held", sc_revert_child_previous_held;
+  "revert_previous_closed_first", sc_revert_previous_closed_first;
+  "revert_child_only", sc_revert_child_only;
 ]
 
 let kind_name = function
@@ -63,9 +76,9 @@ let () =
           List.iter (fun d -> Printf.printf "  %s\n" d) detail;
           Printf.printf "CASE %d seed=%s DISAGREE steps=%d nontrivial=1\n" !cur_id !cur_seed nsteps in
         (match List.assoc_opt name scenarios with
-         | None -> fail 0 ["no operation list for this scenario in OwnersScenarios.v"]
+         | None -> fail 0 ["no operation list for this scenario in OwnersScenarios.v / OwnersRevertScenarios.v"]
          | Some ops ->
-             match run_events ops with
+             match events_of ops with
              | None -> fail 0 ["the model refuses the scenario's operation list"]
              | Some mev ->
                  let model = canon (List.map (fun ((k, o), a) -> (kind_name k, int_of_nat o, int_of_nat a)) mev) in
@@ -77,7 +90,7 @@ let () =
                    | _ -> Some (i, (match m with x :: _ -> ev_str x | [] -> "(end of events)"),
                                    (match r with y :: _ -> ev_str y | [] -> "(end of events)")) in
                  let nfiles_code = match Sexp.field "nfiles" items with Some (n :: _) -> int_of_sx n | _ -> -1 in
-                 let nfiles_model = match run_nfiles ops with Some n -> int_of_nat n | None -> -1 in
+                 let nfiles_model = match nfiles_of ops with Some n -> int_of_nat n | None -> -1 in
                  (match cmp 0 model real with
                   | None when nfiles_code >= 0 && nfiles_code <> nfiles_model ->
                       Printf.printf "MISMATCH case=%d seed=%s step=%d label=%s kinds=model:owner-files\n" !cur_id !cur_seed nsteps name;
